@@ -14,12 +14,13 @@ import (
 // (fan-out of plain paths over arrays of sub-documents is outside the property's domain).
 
 const c14Tags = vf.TNull | vf.TInt32 | vf.TDouble | vf.TString | vf.TBool | vf.TArray | vf.TDoc | vf.TFlatArr
-const c14Probes = "_id,a,b,a.a,a.b,b.a"
+// field names a and ab share a prefix on purpose: path relations are about segments, not characters
+const c14Probes = "_id,a,ab,a.a,a.ab,ab.a"
 
 func c14Doc() bson.D {
 	// stored documents always carry an _id
 	d := bson.D{{Key: "_id", Value: vf.Value("d._id", "a", 1, vf.TInt32|vf.TString|vf.TDoc, 1)}}
-	rest := vf.Doc("d", "a,b", 2, uint32(vf.Param("tags", c14Tags)), vf.Param("ddepth", 2))
+	rest := vf.Doc("d", "a,ab", 2, uint32(vf.Param("tags", c14Tags)), vf.Param("ddepth", 2))
 	return append(d, rest...)
 }
 
@@ -89,14 +90,14 @@ func isZero(v interface{}) bool {
 // inclusion / exclusion of one or two paths, with optional _id suppression
 func H_C14_inclexcl() {
 	doc := c14Doc()
-	p1 := vf.String("p1", "a,b,a.a,a.b")
+	p1 := vf.String("p1", "a,ab,a.a,a.ab")
 	f1 := flag("f1")
 	vf.Assume(isOne(f1) || isZero(f1))
 	proj := bson.D{{Key: p1, Value: f1}}
 	include := isOne(f1)
 	paths := []string{p1}
 	if vf.Bool("two") {
-		p2 := vf.String("p2", "b,a.b,b.a")
+		p2 := vf.String("p2", "ab,a.ab,ab.a")
 		vf.Assume(!related(p1, p2))
 		var f2 interface{} = int32(0)
 		if include {
@@ -177,6 +178,13 @@ func H_C14_slice() {
 		arr[i] = int32(i)
 	}
 	doc := bson.D{{Key: "_id", Value: int32(7)}, {Key: "a", Value: arr}, {Key: "b", Value: "x"}}
+	spath := "a"
+	nested := vf.Bool("nested")
+	if nested {
+		// the array sits inside an embedded document
+		doc = bson.D{{Key: "_id", Value: int32(7)}, {Key: "a", Value: bson.D{{Key: "t", Value: arr}, {Key: "u", Value: int32(1)}}}, {Key: "b", Value: "x"}}
+		spath = "a.t"
+	}
 	orig := *bsonkit.Clone(&doc)
 	var arg interface{}
 	var lo, hi int // expected window
@@ -224,20 +232,35 @@ func H_C14_slice() {
 			}
 		}
 	}
-	proj := bson.D{{Key: "a", Value: bson.D{{Key: "$slice", Value: arg}}}}
+	proj := bson.D{{Key: spath, Value: bson.D{{Key: "$slice", Value: arg}}}}
+	excl := vf.Bool("excl")
+	if excl {
+		proj = append(proj, bson.E{Key: "b", Value: int32(0)})
+	}
 	vf.Freeze(&doc, "stored document during $slice projection")
 	res, err := Project(&doc, &proj)
 	vf.Unfreeze()
 	vf.Assert(err == nil, "$slice projection failed")
-	got, ok := bsonkit.Get(res, "a").(bson.A)
+	got, ok := bsonkit.Get(res, spath).(bson.A)
 	vf.Assert(ok, "$slice result is not an array")
 	vf.Observe("len", int64(len(got)))
 	vf.Assert(len(got) == hi-lo, "$slice window has the wrong length")
 	for i := range got {
 		vf.Assert(vf.EqualValues(got[i], arr[lo+i]), "$slice window holds the wrong element")
 	}
-	vf.Assert(vf.EqualValues(bsonkit.Get(res, "b"), "x") && vf.EqualValues(bsonkit.Get(res, "_id"), int32(7)), "$slice projection dropped other fields")
+	if excl {
+		vf.Assert(bsonkit.Get(res, "b") == bsonkit.Missing, "excluded field still present")
+	} else {
+		vf.Assert(vf.EqualValues(bsonkit.Get(res, "b"), "x"), "$slice projection dropped other fields")
+	}
+	vf.Assert(vf.EqualValues(bsonkit.Get(res, "_id"), int32(7)), "$slice projection dropped _id")
+	if nested {
+		vf.Assert(vf.EqualValues(bsonkit.Get(res, "a.u"), int32(1)), "$slice projection dropped a sibling of the sliced array")
+	}
 	vf.Assert(vf.EqualValues(doc, orig), "Project changed the stored document")
+	// a second, plain read still sees the full array
+	full, ok2 := bsonkit.Get(&doc, spath).(bson.A)
+	vf.Assert(ok2 && len(full) == n, "the stored array was truncated by the projection")
 	// (results may share memory with the stored document at this level: callers of the driver API
 	// only ever see codec copies; aliasing across that boundary is C17's subject)
 }
@@ -250,6 +273,18 @@ func H_C14_elem() {
 		arr[i] = vf.Value("e"+string(rune('0'+i)), "x", 1, vf.TInt32|vf.TString|vf.TDoc, 1)
 	}
 	doc := bson.D{{Key: "_id", Value: int32(7)}, {Key: "a", Value: arr}, {Key: "b", Value: "x"}}
+	if vf.Bool("notArray") {
+		// the targeted field holds a scalar or an embedded document: $elemMatch omits it
+		nv := vf.Value("na", "x", 1, vf.TInt32|vf.TString|vf.TDoc|vf.TNull, 1)
+		doc[1].Value = nv
+		q := bson.D{{Key: "a", Value: bson.D{{Key: "$elemMatch", Value: bson.D{{Key: "$gte", Value: int32(0)}}}}}}
+		r, err := Project(&doc, &q)
+		vf.Assert(err == nil, "$elemMatch projection failed")
+		vf.Assert(bsonkit.Get(r, "a") == bsonkit.Missing, "$elemMatch returned a field that is not an array")
+		vf.Assert(vf.EqualValues(bsonkit.Get(r, "_id"), int32(7)), "$elemMatch projection lost _id")
+		vf.Assert(bsonkit.Get(r, "b") == bsonkit.Missing, "$elemMatch projection returned a field that was not requested")
+		return
+	}
 	orig := *bsonkit.Clone(&doc)
 	c := vf.Int32("c")
 	var cond bson.D
